@@ -26,6 +26,12 @@ type vfFecPkt struct {
 // vfFecStream produces ngroups complete groups from a real encoder whose next id is set to base.
 // sizes: payload sizes cycled over the data packets.
 func vfFecStream(d, p int, base uint32, ngroups int, sizes []int) []vfFecPkt {
+	return vfFecStreamGap(d, p, base, ngroups, sizes, -1)
+}
+
+// vfFecStreamGap: like vfFecStream, with an idle gap longer than the continuity limit before the last data packet of
+// group gapGroup (so that group's parity is skipped; its packets are then only the data packets).
+func vfFecStreamGap(d, p int, base uint32, ngroups int, sizes []int, gapGroup int) []vfFecPkt {
 	enc := newFECEncoder(d, p, 0)
 	enc.next = base % enc.paws
 	// make the continuity test pass from the first group on (the encoder compares wall-clock gaps)
@@ -39,6 +45,9 @@ func vfFecStream(d, p int, base uint32, ngroups int, sizes []int) []vfFecPkt {
 			b := make([]byte, fecHeaderSizePlus2+n, 1500)
 			for j := 0; j < n; j++ {
 				b[fecHeaderSizePlus2+j] = byte(1 + (g*31+i*7+j*3)%250)
+			}
+			if g == gapGroup && i == d-1 {
+				vrt.Advance(time.Duration(maxFECEncodeLatency+50) * time.Millisecond)
 			}
 			ps := enc.encode(b, maxFECEncodeLatency)
 			out = append(out, vfFecPkt{seqid: fecPacket(b).seqid(), raw: append([]byte(nil), b...), group: g, pos: i})
@@ -177,8 +186,9 @@ func vfC07(c *hx.Ctx) {
 		bases := []struct {
 			b     uint32
 			fresh bool
-		}{{0, true}, {3 * size, false}, {(1<<31)/size*size - size, false}, {(1<<31)/size*size + size, false}, {paws - 2*size, false}, {paws - size, false},
-			{(1<<31)/size*size + 5*size, true}, {paws - size, true}, {7 * size, true}}
+			gap   bool // the group before the focus group had its parity skipped (idle sender)
+		}{{b: 0, gap: true}, {b: 5 * size, gap: true}, {b: 0, fresh: true}, {b: 3 * size}, {b: (1<<31)/size*size - size}, {b: (1<<31)/size*size + size}, {b: paws - 2*size}, {b: paws - size},
+			{b: (1<<31)/size*size + 5*size, fresh: true}, {b: paws - size, fresh: true}, {b: 7 * size, fresh: true}}
 		for _, bs := range bases {
 			for si, sizes := range [][]int{{1, 2, 700, 1400}, {1400, 1, 1, 5}, {30}} {
 				idx++
@@ -189,6 +199,9 @@ func vfC07(c *hx.Ctx) {
 					continue
 				}
 				name := fmt.Sprintf("arrivals/d=%d,p=%d/base=%#x/fresh=%v/sizes=%v", d, p, bs.b, bs.fresh, sizes)
+				if bs.gap {
+					name += "/previous-group-without-parity"
+				}
 				if c.Skip(name) {
 					continue
 				}
@@ -203,8 +216,16 @@ func vfC07(c *hx.Ctx) {
 				stream := vfFecStream(d, p, bs.b, 2, sizes)
 				if !bs.fresh {
 					// the decoder has followed the stream up to this point: three earlier groups
-					all := vfFecStream(d, p, uint32((uint64(bs.b)+uint64(paws)-3*uint64(size))%uint64(paws)), 5, sizes)
-					pre, stream = all[:3*n], all[3*n:]
+					gg := -1
+					if bs.gap {
+						gg = 2
+					}
+					all := vfFecStreamGap(d, p, uint32((uint64(bs.b)+uint64(paws)-3*uint64(size))%uint64(paws)), 5, sizes, gg)
+					cut := 3 * n
+					if bs.gap {
+						cut -= p // the gapped group has no parity packets
+					}
+					pre, stream = all[:cut], all[cut:]
 				}
 				alphabet := append(append([]vfFecPkt{}, stream[:n]...), stream[n], stream[n+d]) // focus group + first data and first parity of the next
 				g0 := stream[0].group
@@ -233,7 +254,15 @@ func vfC07(c *hx.Ctx) {
 						if len(distinct) >= d {
 							u.NonTrivial++
 						}
-						if sig, msg := vfC07Seq(cf, pre, alphabet, stream, seq); sig != "" {
+						sig, msg := func() (sig, msg string) {
+							defer func() {
+								if r := recover(); r != nil {
+									sig, msg = "C07:decoder-panic:"+vfPanicSiteOf(), fmt.Sprintf("the decoder panicked: %v", r)
+								}
+							}()
+							return vfC07Seq(cf, pre, alphabet, stream, seq)
+						}()
+						if sig != "" {
 							found := false
 							for _, v := range u.Violations {
 								if v.Signature == sig {
